@@ -150,6 +150,13 @@ def strictOkB (row out : List (Option Nat)) (first : Bool) : Bool :=
   (row.zip out).all (fun p => (row.zip out).all fun q => !ltR p.1 q.1 || ltR p.2 q.2) &&
   (!first || allPairsB (fun p q => !(p.1.isSome && p.1 == q.1) || ltR p.2 q.2) (row.zip out))
 
+/-! ## B''. `incomplete_valuation_profile_to_complete_valuation_profile` (one row): NaN becomes 0, everything else is kept -/
+
+def fillZero (vals : List (Option Rat)) : List Rat :=
+  vals.map fun x => match x with
+    | some v => v
+    | none => 0
+
 /-! ## C. `incomplete_profile_to_complete_profile` (one row)
 `mode`: 0 = "accept", 1 = "first", anything else = "random". -/
 
